@@ -506,7 +506,7 @@ static void mode_raw(vf::Ctx& c)
 	for (;;) {
 		struct pollfd p = {fd, POLLIN, 0};
 		if (poll(&p, 1, 200) > 0) { ssize_t r = recv(fd, buf, sizeof buf, 0); if (r <= 0) break; resp.append(buf, r); }
-		if (vf::now() - t0 > 20) break;
+		if (vf::now() - t0 > 90) break;
 	}
 	close(fd);
 	size_t roff = 0;
